@@ -287,13 +287,10 @@ where
                 // 2. This method will set the dirty flag to prevent this new
                 //    ValueEntry from being evicted by an expiration policy.
                 // 3. This method will update the policy_weight with the new weight.
-                let old_weight = entry.policy_weight();
                 *entry = self.new_value_entry_from(value.clone(), ts, weight, entry);
                 update_op = Some(WriteOp::Upsert {
                     key_hash: KeyHash::new(Arc::clone(&key), hash),
                     value_entry: TrioArc::clone(entry),
-                    old_weight,
-                    new_weight: weight,
                 });
             })
             // Insert
@@ -302,8 +299,6 @@ where
                 insert_op = Some(WriteOp::Upsert {
                     key_hash: KeyHash::new(Arc::clone(&key), hash),
                     value_entry: TrioArc::clone(&entry),
-                    old_weight: 0,
-                    new_weight: weight,
                 });
                 entry
             });
@@ -798,9 +793,7 @@ where
                 Ok(Upsert {
                     key_hash: kh,
                     value_entry: entry,
-                    old_weight,
-                    new_weight,
-                }) => self.handle_upsert(kh, entry, old_weight, new_weight, deqs, &freq, counters),
+                }) => self.handle_upsert(kh, entry, deqs, &freq, counters),
                 Ok(Remove(KvEntry { key: _key, entry })) => {
                     Self::handle_remove(deqs, entry, counters)
                 }
@@ -809,13 +802,10 @@ where
         }
     }
 
-    #[allow(clippy::too_many_arguments)]
     fn handle_upsert(
         &self,
         kh: KeyHash<K>,
         entry: TrioArc<ValueEntry<K, V>>,
-        old_weight: u32,
-        new_weight: u32,
         deqs: &mut Deques<K>,
         freq: &FrequencySketch,
         counters: &mut EvictionCounters,
@@ -824,8 +814,15 @@ where
 
         if entry.is_admitted() {
             // The entry has been already admitted, so treat this as an update.
-            counters.saturating_sub(0, old_weight);
-            counters.saturating_add(0, new_weight);
+            // Write ops for one key can be queued in a different order than the
+            // hash map was updated, so do not trust the weights carried by the op.
+            // Replace the weight currently accounted for this entry with its
+            // current weight.
+            let info = entry.entry_info();
+            let current_weight = info.policy_weight();
+            counters.saturating_sub(0, info.accounted_weight());
+            counters.saturating_add(0, current_weight);
+            info.set_accounted_weight(current_weight);
             deqs.move_to_back_ao(&entry);
             deqs.move_to_back_wo(&entry);
             return;
@@ -838,6 +835,10 @@ where
         if !self.is_current_entry(&kh.key, &entry) {
             return;
         }
+
+        // The entry may have been updated again since this op was created. Decide
+        // with its current weight, which is what will be accounted for it.
+        let new_weight = entry.policy_weight();
 
         if self.has_enough_capacity(new_weight, counters) {
             // There are enough room in the cache (or the cache is unbounded).
@@ -965,7 +966,7 @@ where
                     .get(vic_elem.key())
                     .filter(|e| vic_elem.is_node_of(e.entry_info()));
                 if let Some(vic_entry) = vic_entry {
-                    victims.add_policy_weight(vic_entry.policy_weight());
+                    victims.add_policy_weight(vic_entry.entry_info().accounted_weight());
                     victims.add_frequency(freq, vic_elem.hash());
                     victim_nodes.push(victim);
                     retries = 0;
@@ -1018,6 +1019,7 @@ where
         if self.is_write_order_queue_enabled() {
             deqs.push_back_wo(KeyDate::new(key, entry.entry_info()), entry);
         }
+        entry.entry_info().set_accounted_weight(policy_weight);
         entry.set_admitted(true);
     }
 
@@ -1028,7 +1030,8 @@ where
     ) {
         if entry.is_admitted() {
             entry.set_admitted(false);
-            counters.saturating_sub(1, entry.policy_weight());
+            counters.saturating_sub(1, entry.entry_info().accounted_weight());
+            entry.entry_info().set_accounted_weight(0);
             // The following two unlink_* functions will unset the deq nodes.
             deqs.unlink_ao(&entry);
             Deques::unlink_wo(&mut deqs.write_order, &entry);
@@ -1046,7 +1049,8 @@ where
     ) {
         if entry.is_admitted() {
             entry.set_admitted(false);
-            counters.saturating_sub(1, entry.policy_weight());
+            counters.saturating_sub(1, entry.entry_info().accounted_weight());
+            entry.entry_info().set_accounted_weight(0);
             // The following two unlink_* functions will unset the deq nodes.
             Deques::unlink_ao_from_deque(ao_deq_name, ao_deq, &entry);
             Deques::unlink_wo(wo_deq, &entry);
